@@ -6,6 +6,7 @@ import json
 import multiprocessing as mp
 import os
 import random
+import re
 import time
 
 import z3
@@ -165,6 +166,7 @@ class Env:
         self.nintr = 0
         self.nempty = 0
         self.gone = False
+        self.tgone = False
         self.t = z3.IntVal(0)
         self.nclock = 0
         self.script = []
@@ -257,7 +259,7 @@ class Env:
         cap = sp.W if not sp.memo else 4 * (sp.E + sp.T + sp.C + sp.intr) + 8
         if self.npoll <= cap:
             kleft = sp.E - self.nkey
-            tleft = sp.T - self.ntab
+            tleft = 0 if self.tgone else sp.T - self.ntab
             if getattr(sp, 'fixed_history', False):
                 for b in sorted(set([1, 2, kleft])):
                     if 1 <= b <= kleft:
@@ -273,7 +275,8 @@ class Env:
             if self.nempty < sp.empty:
                 # the device is readable but holds only records its reader skips (SYN, MSC_SCAN, other switches): Busy at once
                 opts.append(('dev', ['K'], 0, 0))
-                opts.append(('dev', ['T'], 0, 0))
+                if not self.tgone:
+                    opts.append(('dev', ['T'], 0, 0))
             if (timeout is not None and self.ngenuine < sp.C) or (timeout is None and (sp.memo or self.npoll <= 2)):
                 opts.append(('timeout',))
             if self.nintr < sp.intr:
@@ -281,6 +284,15 @@ class Env:
         opts.append(('gone', 0))
         if self.npoll <= cap and sp.E - self.nkey >= 1:
             opts.append(('gone', 1))
+        if self.npoll <= cap and sp.T - self.ntab >= 1 and not self.tgone:
+            # end-of-device in a notification that names the tablet switch too, in either order
+            opts.append(('gone', 0, ['K', 'T']))
+            opts.append(('gone', 0, ['T', 'K']))
+            if True:
+                # the tablet switch itself goes away (its reader answers End): alone, or with a key event in the same wake-up
+                opts.append(('tgone', 0, ['T']))
+                if sp.E - self.nkey >= 1:
+                    opts.append(('tgone', 1, ['T', 'K']))
         o = opts[it.choose(len(opts))]
         if o[0] == 'dev':
             if o[2] == 0 and o[3] == 0:
@@ -309,12 +321,18 @@ class Env:
             self.script.append(['poll', 'intr'])
             self.mon.on_poll_return('intr')
             return ok(Adt('PollResult', 'Interrupted', []))
-        self.gone = True
+        devs = o[2] if len(o) > 2 else ['K']
+        if o[0] == 'tgone':
+            self.tgone = True
+        else:
+            self.gone = True
+            if 'T' in devs:
+                self.new_tablet_event()
         for _ in range(o[1]):
             self.new_key_event()
-        self.script.append(['poll', 'dev', ['K']])
+        self.script.append(['poll', 'dev', devs])
         self.mon.on_poll_return('dev')
-        return ok(Adt('PollResult', 'DeviceEvent', [VecV([Adt('Device', 'Keyboard', [])])]))
+        return ok(Adt('PollResult', 'DeviceEvent', [VecV([Adt('Device', 'Keyboard' if d == 'K' else 'Tablet', []) for d in devs])]))
 
     def memo_key(self, it, timeout):
         """canonical form of everything the future can depend on at this poll entry, or None if it holds clock terms"""
@@ -365,6 +383,11 @@ class Env:
             self.script.append(['next_tablet', 'one', ev])
             self.mon.on_tablet_read(ev)
             return ok(Adt('Next', 'One', [EnumC('TableModeEvent', mapper.PROG.types['TableModeEvent'][0].disc[ev])]))
+        if self.tgone:
+            # the switch device is gone: nothing more can be learnt about the mode; what the loop does next is judged by
+            # the rules that still apply (silence while in tablet mode, C12; mapper outputs otherwise, C10)
+            self.script.append(['next_tablet', 'end'])
+            return ok(Adt('Next', 'End', []))
         self.script.append(['next_tablet', 'busy'])
         return ok(Adt('Next', 'Busy', []))
 
@@ -819,6 +842,8 @@ def run(tier, seed):
     mapper.init(prog)
     F_LOOP = prog.find_fn('do_remapping_loop_one_device')
     specs = loop_specs(tier, seed)
+    if ONLY:
+        specs = [s_ for s_ in specs if re.search(ONLY, s_.name)]      # development aid, never set by a registered check; not cached
     random.seed(seed)
     spec_map = {i: s for i, s in enumerate(specs)}
     units = []
@@ -925,9 +950,14 @@ def _default_layout(spec):
     return lay
 
 
+ONLY = os.environ.get('VERIF_LOOP_ONLY') or None
+
+
 def get_results(tier, seed):
     cp = cache_path(tier, seed)
     with _Lock('loop-explore-%s' % tier):
+        if ONLY:
+            return dict(run(tier, seed), cache_hit=False)
         if os.path.exists(cp) and os.environ.get('VERIF_NOCACHE') != '1':
             try:
                 d = json.load(open(cp))
